@@ -279,6 +279,15 @@ func (r *rotPayload) Wrapper() wrapping.Wrapper { return r.w }
 func (r *rotPayload) HmacSalt() []byte          { return r.salt }
 func (r *rotPayload) HmacInfo() []byte          { return r.info }
 
+// docStr / docBytes are defined types with string / []byte underneath; docHolder carries a decoded document.
+type docStr string
+type docBytes []byte
+type docHolder struct{ M map[string]interface{} }
+
+func doc2() interface{} {
+	return map[string]interface{}{"l": []interface{}{"CANARYdocT1", map[string]interface{}{"deep": []interface{}{"CANARYdocT2"}}}, "n": docStr("CANARYdocT3")}
+}
+
 // badTagMap is a Taggable whose single tag uses the pointer in badTagPointer.
 type badTagMap map[string]interface{}
 
@@ -456,6 +465,61 @@ func Specials(prop, cls string) *hk.Result {
 			}
 		}()
 		res.Outcome("special defined-types")
+	}
+	// what a decoded document holds: untagged maps whose values are lists (with strings, []byte, nil, lists,
+	// maps, structs inside), values of defined string / []byte types, pointers to strings / []byte, nil.
+	// All of it is unclassified data (README: "all of its fields will be filtered as secret data").
+	{
+		mkDoc := func() (interface{}, interface{}, interface{}, interface{}) {
+			ps, pb := "CANARYdocPS", []byte("CANARYdocPB")
+			ps2 := "CANARYdocPS2"
+			doc := map[string]interface{}{
+				"l":   []interface{}{"CANARYdocL1", []byte("CANARYdocL2"), nil, []interface{}{"CANARYdocL3", nil}, map[string]interface{}{"k": "CANARYdocL4"}, &struct{ X string }{"CANARYdocL5"}, 7, true},
+				"n":   docStr("CANARYdocN"),
+				"nb":  docBytes("CANARYdocNB"),
+				"ln":  []docStr{"CANARYdocLN"},
+				"p":   &ps,
+				"pb":  &pb,
+				"nil": nil,
+				"i":   42,
+			}
+			return &docHolder{M: doc}, doc2(), &struct{ M map[string]*string }{M: map[string]*string{"p": &ps2, "nilp": nil}}, &struct{ M map[string]docStr }{M: map[string]docStr{"n": "CANARYdocMN"}}
+		}
+		a, b, c, d := mkDoc()
+		ta, tb, tc, td := mkDoc()
+		ins, twins := []interface{}{a, b, c, d}, []interface{}{ta, tb, tc, td}
+		for i, name := range []string{"document in a struct field", "document as the payload", "map[string]*string", "map of a defined string type"} {
+			count()
+			var out *el.Event
+			var err error
+			func() {
+				defer func() {
+					if p := recover(); p != nil {
+						err = fmt.Errorf("PANIC: %v", p)
+						fail("decoded-document payload: "+name, "Process panicked: %v", p)
+					}
+				}()
+				out, err = mk().Process(ctx, &el.Event{Type: "t", Payload: ins[i]})
+			}()
+			if cls == "leak" && err == nil && out != nil {
+				var sb strings.Builder
+				walkStrings(reflect.ValueOf(out.Payload), &sb, 0)
+				if k := strings.Index(sb.String(), "CANARYdoc"); k >= 0 {
+					fail("decoded-document payload: "+name, "unclassified data inside an untagged map is readable in the forwarded event: %q", trunc(sb.String()[k:], 40))
+				}
+			}
+			if cls == "copy" {
+				if !reflect.DeepEqual(ins[i], twins[i]) {
+					fail("decoded-document payload: "+name, "Process modified the payload it was given")
+				}
+				if err == nil && out != nil {
+					if x, y := skeleton(reflect.ValueOf(twins[i]), 0), skeleton(reflect.ValueOf(out.Payload), 0); x != y {
+						fail("decoded-document payload: "+name, "the forwarded payload does not have the input's dynamic types / shape: input %s, output %s", trunc(x, 400), trunc(y, 400))
+					}
+				}
+			}
+			res.Outcome("special decoded-document " + name)
+		}
 	}
 	// bad tag pointers fail closed: a Taggable whose tag cannot be evaluated (not a pointer at all; a pointer
 	// that walks through a scalar) is an error, and nothing is forwarded
